@@ -1,5 +1,6 @@
-import FGVerif.Driver.Shared
-/-! driver operations for C04 (stub: replaced by the property's own driver) -/
+import FGVerif.Driver.C03
+/-! driver operations for C04: the operations of `Driver/C03.lean`, with `spec_*` computed from
+    the C04 clauses (`c04_not_embedding`, `c04_false_negative_acyclic`, `raised`) -/
 namespace C04
-def handle : List SExp → Option SExp := fun _ => none
+def handle : List SExp → Option SExp := C03.handleFor .c04
 end C04
